@@ -90,7 +90,7 @@ theorem translate_layout_independent (cfg₁ cfg₂ : PySt.Cfg) (n₁ n₂ : Nat
 /-- floats `0 1 2`; a binary constructor and a constant; one axiom with two essential hypotheses
 (`|- x`, `|- ( \imp x y )` ⊢ `|- y`); the three proof rules -/
 def exDB : DB :=
-  { floats := [0, 1, 2], impArgs := (0, 1), appArgs := (0, 1), ctors := [⟨7, [0, 1]⟩, ⟨3, []⟩],
+  { floats := [0, 1, 2], impArgs := (0, 1), appArgs := (0, 1), ctors := [{ sym := 7, args := [0, 1] }, { sym := 3, args := [] }],
     rules := [⟨[.var 0, .imp (.var 0) (.var 1)], .var 1⟩], p1 := (0, 1), p2 := (0, 1, 2), mp := (0, 1) }
 
 /-- `( \imp x ( \imp y x ) )` -/
